@@ -1497,6 +1497,9 @@ class Stream(AbstractStream):
             else:
                 self.copy_flow(streams[0])
         else:
+            if any([i is self for i in streams]): 
+                # This stream is overwritten while mixing; keep its contribution intact
+                streams = [i.copy() if i is self else i for i in streams]
             self.P = P = min([i.P for i in streams])
             if conserve_phases:
                 phases = self.phase + ''.join([i.phase for i in others])
